@@ -14,6 +14,8 @@
 -/
 import IgrisModel.C18.Lemmas
 import IgrisModel.C18.More
+import IgrisModel.C18.Round3
+import IgrisModel.C07.Model
 namespace Igris.C18
 open Igris.Proto Spec
 
@@ -549,5 +551,290 @@ theorem other_requests_below_max (size : Nat) :
   have hx : size * 8 % 2 ^ 64 < 2 ^ 64 := Nat.mod_lt _ (by decide)
   generalize size * 8 % 2 ^ 64 = x at hx
   constructor <;> omega
+
+/-! # Round 3 -/
+
+/-! ## one function, two models (audit F): C07 and C18 both transcribe `hex2half` -/
+
+/-- the model of `hex2half` used by property C07 (`BitVec 8` arithmetic on the
+signed value) and this one (promotion to `int`, truncation) are the same
+function on every `char` -/
+theorem hex2half_eq_C07 : ∀ c : Byte, hex2half c = Igris.C07.hex2half c := by decide +kernel
+
+/-! ## twins: hexascii_string.cpp against hexascii.c -/
+
+/-- `igris::hexascii_encode` (std::string) = `hexascii_encode` (C) -/
+theorem hexEncodeStr_twin (data : List Byte) : hexEncodeStr data = hexEncode data := hexEncodeStr_eq data
+
+/-- `igris::hexascii_decode` (std::string / buffer) returns exactly the bytes the
+C routine writes, for EVERY text (nothing of the zero-filled `resize` survives) -/
+theorem hexDecodeStr_twin (s : List Byte) : hexDecodeStr s = hexDecode s := by
+  have hl := hexDecode_length s
+  simp only [hexDecodeStr]
+  rw [List.drop_of_length_le (by simp [hl])]
+  simp
+
+/-! ## injectivity (two different byte strings never share an encoding) -/
+
+theorem hexEncode_injective (x y : List Byte) (h : hexEncode x = hexEncode y) : x = y := by
+  rw [← hex_roundtrip x, ← hex_roundtrip y, h]
+theorem b64Encode_injective (x y : List Byte) (h : b64Encode x = b64Encode y) : x = y := by
+  rw [← b64_roundtrip x, ← b64_roundtrip y, h]
+theorem b64urlEncode_injective (x y : List Byte) (h : b64urlEncode x = b64urlEncode y) : x = y := by
+  rw [← b64url_roundtrip x, ← b64url_roundtrip y, h]
+theorem uint16ToHex_injective (x y : BitVec 16) (h : uint16ToHex x = uint16ToHex y) : x = y := by
+  rw [← uint16_hex_inverse x, ← uint16_hex_inverse y, h]
+theorem uint32ToHex_injective (x y : BitVec 32) (h : uint32ToHex x = uint32ToHex y) : x = y := by
+  rw [← uint32_hex_inverse x, ← uint32_hex_inverse y, h]
+theorem uint64ToHex_injective (x y : BitVec 64) (h : uint64ToHex x = uint64ToHex y) : x = y := by
+  rw [← uint64_hex_inverse x, ← uint64_hex_inverse y, h]
+
+example : hexEncode [0xAB#8] = hexEncode [0xAB#8] ∧ b64Encode [1#8] = b64Encode [1#8] := ⟨rfl, rfl⟩
+
+/-- the decoder is injective on the encoder's range (even-length upper-case hex) -/
+theorem hexDecode_injective_on_hex (s t : List Byte) (hs : ∀ c ∈ s, IsUpperHex c) (ht : ∀ c ∈ t, IsUpperHex c)
+    (ls : s.length % 2 = 0) (lt : t.length % 2 = 0) (h : hexDecode s = hexDecode t) : s = t := by
+  rw [← hexDecode_accepts s hs ls, ← hexDecode_accepts t ht lt, h]
+
+example : (∀ c ∈ [0x41#8, 0x39#8], IsUpperHex c) ∧ [0x41#8, 0x39#8].length % 2 = 0 := by decide
+
+/-! ## padding rules -/
+
+/-- `base64_encode`: letters of RFC table 1 (never `=`) followed by exactly
+`(3 - n mod 3) mod 3` padding characters: 0, 2, 1 for `n ≡ 0, 1, 2 (mod 3)` -/
+theorem b64Encode_padding (data : List Byte) : ∃ body : List Byte,
+    b64Encode data = body ++ List.replicate ((3 - data.length % 3) % 3) padChar ∧
+    (∀ c ∈ body, c ∈ stdAlphabet.map ch) ∧ padChar ∉ stdAlphabet.map ch :=
+  let ⟨body, h, hb⟩ := b64Encode_body data
+  ⟨body, h, hb, pad_not_std⟩
+
+/-- … so the number of `=` in the text is `(3 - n mod 3) mod 3` -/
+theorem b64Encode_padCount (data : List Byte) :
+    (b64Encode data).count padChar = (3 - data.length % 3) % 3 := by
+  obtain ⟨body, h, hb⟩ := b64Encode_body data
+  rw [h, count_body_pad _ body _ pad_not_std hb]
+
+/-- url-safe: the same with table 2 (`-`, `_`), padding kept -/
+theorem b64urlEncode_padding (data : List Byte) : ∃ body : List Byte,
+    b64urlEncode data = body ++ List.replicate ((3 - data.length % 3) % 3) padChar ∧
+    (∀ c ∈ body, c ∈ urlAlphabet.map ch) ∧ padChar ∉ urlAlphabet.map ch := by
+  obtain ⟨body, h, hb⟩ := b64Encode_body data
+  refine ⟨body.map urlSubst, ?_, ?_, pad_not_url⟩
+  · rw [b64urlEncode, h, List.map_append, List.map_replicate, urlSubst_pad]
+  · intro c hc
+    obtain ⟨x, hx, rfl⟩ := List.mem_map.mp hc
+    exact urlSubst_mem x (hb x hx)
+
+theorem b64urlEncode_padCount (data : List Byte) :
+    (b64urlEncode data).count padChar = (3 - data.length % 3) % 3 := by
+  obtain ⟨body, h, hb, hp⟩ := b64urlEncode_padding data
+  rw [h, count_body_pad _ body _ hp hb]
+
+/-! ## the other alphabet fed to a decoder -/
+
+/-- `base64url_decode` also decodes standard base64 text (`+`, `/` pass its translation unchanged) -/
+theorem b64urlDecode_accepts_std (data : List Byte) : b64urlDecode (b64Encode data) = data := by
+  have : (b64Encode data).map urlUnsubst = b64Encode data := by
+    conv => rhs; rw [← List.map_id (b64Encode data)]
+    apply List.map_congr_left
+    intro x hx
+    exact urlUnsubst_std x (b64Encode_alphabet data x hx)
+  rw [b64urlDecode, this, b64_roundtrip]
+
+/-- `base64_decode` does NOT decode url-safe text: it stops at the first `-` / `_`
+(`b64Decode_stops`); `"-_8="` = base64url of `fb ff` decodes to nothing -/
+theorem b64Decode_url_witness : b64Decode (b64urlEncode [0xfb#8, 0xff#8]) = [] ∧
+    b64urlDecode (b64urlEncode [0xfb#8, 0xff#8]) = [0xfb#8, 0xff#8] := by decide +kernel
+
+/-- the alphabets as the encoders print them: the 48 bytes whose sextets are
+0,1,…,63 (op `alphas` runs the same call on the compiled code) -/
+theorem sextetRamp_alphabets :
+    b64Encode sextetRamp = stdAlphabet.map ch ∧ b64urlEncode sextetRamp = urlAlphabet.map ch := by decide +kernel
+
+/-! ## `base64_decode`: the domain of the `int in_` index, exactly -/
+
+/-- `b64DecodeM_eq` with its hypothesis weakened to what the routine really
+depends on: the number of LEADING LETTERS (the text behind the first
+non-letter is never indexed), for every initial array content -/
+theorem b64DecodeM_eq_prefix (s init : List Byte) (hi : init.length = 4)
+    (h : (lettersPrefix stdAlphabet s).length < 2 ^ 31) : b64DecodeM s init = some (b64Decode s) := by
+  have e1 : b64DecodeM s init = b64DecodeM (lettersPrefix stdAlphabet s) init := by
+    unfold b64DecodeM; rw [decLoopM_prefix]
+  rw [e1, b64DecodeM_eq _ _ hi h, b64Decode_eq_spec, b64Decode_eq_spec, decodeWith, decodeWith, lettersPrefix_idem]
+
+/-- totality, exactly: `base64_decode` completes without a fault (store outside
+`char_array_4`, NULL from `strchr`, read outside `char_array_3`, overflow of
+`int in_`) iff the text has fewer than `2^31` leading letters -/
+theorem b64DecodeM_safe_iff (s init : List Byte) (hi : init.length = 4) :
+    (b64DecodeM s init).isSome ↔ (lettersPrefix stdAlphabet s).length < 2 ^ 31 := by
+  constructor
+  · intro hs
+    by_cases h : (lettersPrefix stdAlphabet s).length < 2 ^ 31
+    · exact h
+    · have e : decLoopM s 0 init 0 [] = none := by
+        rw [decLoopM_prefix]
+        exact decLoopM_overflow _ 0 init 0 [] (lettersPrefix_all s) (by omega) (by omega)
+      unfold b64DecodeM at hs
+      rw [e] at hs
+      simp at hs
+  · intro h
+    rw [b64DecodeM_eq_prefix s init hi h]
+    rfl
+
+example : ([0#8, 0#8, 0#8, 0#8] : List Byte).length = 4 ∧
+    (lettersPrefix stdAlphabet [0x51#8, 0x55#8, 0x3D#8, 0x51#8]).length < 2 ^ 31 := by decide
+
+/-! ## `hexascii_encode(indata, int size, out)`: the C width of `size` -/
+
+/-- the routine completes iff `size ≥ 0`, `size` bytes are mapped at `indata`
+and `2·size` at `out` (a negative size never terminates inside any buffer) -/
+theorem hexEncodeM_safe_iff (cs : List Byte) (size : Int) (cap : Nat) :
+    (hexEncodeM cs size cap).isSome ↔ (0 ≤ size ∧ size.toNat ≤ cs.length ∧ 2 * size.toNat ≤ cap) := by
+  unfold hexEncodeM
+  by_cases hn : size < 0
+  · simp [hn]; omega
+  · rw [if_neg hn]
+    by_cases hok : size.toNat ≤ cs.length ∧ 2 * size.toNat ≤ cap
+    · rw [encLoopM_ok cs cap size.toNat 0 0 [] (by omega) (by omega)]
+      exact ⟨fun _ => ⟨by omega, hok⟩, fun _ => rfl⟩
+    · rw [encLoopM_fault cs cap size.toNat 0 0 [] (by omega) (by omega) (by omega)]
+      exact ⟨fun h => by simp at h, fun h => absurd h.2 hok⟩
+
+/-- … and then writes the hex text of the first `size` bytes -/
+theorem hexEncodeM_eq (cs : List Byte) (size cap : Nat) (h1 : size ≤ cs.length) (h2 : 2 * size ≤ cap) :
+    hexEncodeM cs size cap = some (hexEncode (cs.take size)) := by
+  unfold hexEncodeM
+  rw [if_neg (by omega), Int.toNat_natCast, encLoopM_ok cs cap size 0 0 [] (by omega) (by omega)]
+  simp
+
+example : hexEncodeM [0xAB#8, 0xCD#8] 1 2 = some [0x41#8, 0x42#8] ∧ hexEncodeM [0xAB#8] (-1) 100 = none
+    ∧ hexEncodeM [0xAB#8] 1 1 = none ∧ hexEncodeM [0xAB#8] 2 4 = none := by decide
+
+/-- a length of `2^31 … 2^32-1` bytes passed through the `int size` parameter
+arrives negative: the encoder is outside its domain for EVERY buffer … -/
+theorem hexEncodeM_int_wrap (cs : List Byte) (n cap : Nat) (h1 : 2 ^ 31 ≤ n) (h2 : n < 2 ^ 32) :
+    hexEncodeM cs (toInt32 n) cap = none := by
+  have hneg : toInt32 n < 0 := by
+    unfold toInt32
+    rw [BitVec.toInt_eq_toNat_cond]
+    simp only [BitVec.toNat_ofNat]
+    rw [Nat.mod_eq_of_lt h2]
+    split <;> omega
+  unfold hexEncodeM
+  rw [if_pos hneg]
+
+/-- … and the decoder silently decodes nothing -/
+theorem hexDecodeM_int_wrap (cs : List Byte) (n cap : Nat) (h1 : 2 ^ 31 ≤ n) (h2 : n < 2 ^ 32) :
+    hexDecodeM cs (toInt32 n) cap = some [] := by
+  have hneg : toInt32 n < 0 := by
+    unfold toInt32
+    rw [BitVec.toInt_eq_toNat_cond]
+    simp only [BitVec.toNat_ofNat]
+    rw [Nat.mod_eq_of_lt h2]
+    split <;> omega
+  unfold hexDecodeM
+  rw [if_pos (evened_le_one _ (by omega))]
+
+example : (2 : Nat) ^ 31 ≤ 2 ^ 31 + 5 ∧ 2 ^ 31 + 5 < (2 : Nat) ^ 32 := by decide
+
+/-- `igris::hexascii_decode(std::string)` for EVERY length (the region that
+`hexDecodeStrM_eq` excludes is characterised exactly): only the first
+`(int)size()` characters are decoded — none when that is negative —, the rest of
+the `size()/2` result bytes stay zero.  A string of `2^31 … 2^32-1` characters
+decodes to all zeros without any report. -/
+theorem hexDecodeStrM_exact (s : List Byte) :
+    hexDecodeStrM s = some (hexDecode (s.take (toInt32 s.length).toNat) ++
+      List.replicate (s.length / 2 - (toInt32 s.length).toNat / 2) 0#8) := by
+  have hle : toInt32 s.length ≤ s.length := by
+    unfold toInt32
+    rw [BitVec.toInt_eq_toNat_cond]
+    simp only [BitVec.toNat_ofNat]
+    split <;> omega
+  unfold hexDecodeStrM
+  simp only [List.length_replicate]
+  by_cases hneg : toInt32 s.length < 0
+  · have e : hexDecodeM s (toInt32 s.length) (s.length / 2) = some [] := by
+      unfold hexDecodeM
+      rw [if_pos (evened_le_one _ (by omega))]
+    have z : (toInt32 s.length).toNat = 0 := by omega
+    rw [e, z]
+    simp [hexDecode]
+  · have hc : toInt32 s.length = ((toInt32 s.length).toNat : Int) := by omega
+    have e := hexDecodeM_eq s (toInt32 s.length).toNat (s.length / 2) (by omega) (by omega)
+    rw [← hc] at e
+    rw [e]
+    simp only [List.drop_replicate, hexDecode_length, List.length_take]
+    congr 3
+    omega
+
+/-! ## in place: `hexascii_decode(buf, size, buf)` -/
+
+/-- decoding into the buffer that holds the text works: every pair is loaded
+before its byte is stored and the store offset `k` never passes the load offset
+`2k`.  Afterwards the first `size/2` bytes are the decoding of the ORIGINAL
+text, everything behind them is unchanged. -/
+theorem hexDecodeInPlaceM_eq (buf : List Byte) (size : Nat) (h : size ≤ buf.length) :
+    hexDecodeInPlaceM buf size = some (hexDecode (buf.take size) ++ buf.drop (size / 2)) := by
+  unfold hexDecodeInPlaceM
+  by_cases h1 : size ≤ 1
+  · rw [if_pos (evened_le_one _ (by omega)), hexDecode_eq]
+    have : size / 2 = 0 := by omega
+    rw [this]
+    match hc : buf.take size with
+    | [] => simp [decPairs]
+    | [_] => simp [decPairs]
+    | _ :: _ :: _ => have := congrArg List.length hc; simp at this; omega
+  · obtain ⟨hpos, hcnt⟩ := evened_nat size (by omega)
+    rw [if_neg hpos, hcnt]
+    have inv := decInPlace_inv (size / 2) [] [] buf rfl (by omega)
+    simp only [List.length_nil, List.nil_append] at inv
+    rw [inv, hexDecode_eq]
+    congr 2
+    by_cases hp : size % 2 = 0
+    · rw [show 2 * (size / 2) = size by omega]
+    · have e : buf.take size = buf.take (2 * (size / 2)) ++ [buf[2 * (size / 2)]'(by omega)] := by
+        have : size = 2 * (size / 2) + 1 := by omega
+        conv => lhs; rw [this]
+        rw [List.take_add_one, List.getElem?_eq_getElem (by omega)]
+        rfl
+      rw [e, decPairs_snoc_even _ _ (by rw [List.length_take]; omega)]
+
+example : hexDecodeInPlaceM [0x61#8, 0x42#8, 0x33#8, 0x39#8, 0x7A#8] 4 = some [0xAB#8, 0x39#8, 0x33#8, 0x39#8, 0x7A#8] := by decide
+
+/-! ## access.h on either byte order -/
+
+/-- `uintN_to_hex` writes the same text whichever branch of access.h is compiled … -/
+theorem uint16ToHexE_endian (e : Endian) (v : BitVec 16) : uint16ToHexE e v = uint16ToHex v := by
+  simp [uint16ToHexE, uint16ToHex, laneHex_eq]
+theorem uint32ToHexE_endian (e : Endian) (v : BitVec 32) : uint32ToHexE e v = uint32ToHex v := by
+  simp [uint32ToHexE, uint32ToHex, laneHex_eq]
+theorem uint64ToHexE_endian (e : Endian) (v : BitVec 64) : uint64ToHexE e v = uint64ToHex v := by
+  simp [uint64ToHexE, uint64ToHex, laneHex_eq]
+
+/-- … and `hex_to_uintN` returns the same value -/
+theorem hexToUint16E_endian (e : Endian) (t : List Byte) : hexToUint16E e t = hexToUint16 t := by
+  cases e <;> rfl
+theorem hexToUint32E_endian (e : Endian) (t : List Byte) : hexToUint32E e t = hexToUint32 t := by
+  cases e <;> rfl
+theorem hexToUint64E_endian (e : Endian) (t : List Byte) : hexToUint64E e t = hexToUint64 t := by
+  cases e <;> rfl
+
+/-- the offsets of the two branches (the harness prints those of the compiled one) -/
+theorem laneOffsets_values :
+    laneOffsets .little = [1, 0, 3, 2, 1, 0, 7, 6, 5, 4, 3, 2, 1, 0] ∧
+    laneOffsets .big = [0, 1, 0, 1, 2, 3, 0, 1, 2, 3, 4, 5, 6, 7] := by decide
+
+/-! ## accumulator forms used by the driver on long inputs -/
+
+theorem hexEncodeFast_eq (data : List Byte) : hexEncodeFast data = hexEncode data := by
+  simp [hexEncodeFast, hexEncodeTR_eq]
+theorem hexDecodeFast_eq (s : List Byte) : hexDecodeFast s = hexDecode s := by
+  simp [hexDecodeFast, decPairsTR_eq, hexDecode_eq]
+theorem b64EncodeFast_eq (data : List Byte) : b64EncodeFast data = b64Encode data := by
+  simp [b64EncodeFast, b64EncodeTR_eq]
+theorem b64DecodeFast_eq (s : List Byte) : b64DecodeFast s = b64Decode s := by
+  have h := decLoopTR_eq s [] []
+  simp only [List.reverse_nil] at h
+  simp only [b64DecodeFast, b64Decode, h, List.reverse_reverse]
 
 end Igris.C18
